@@ -3,22 +3,20 @@
 #include <stdint.h>
 static unsigned long h; static void mix(unsigned long v){ h = (h ^ v) * 1099511628211UL + 7; }
 static void mixs(const char *s){ while (*s) mix((unsigned char)*s++); mix(255); }
-const char *const s0 = "omega_x"; static const char sa0[] = "omega_x";
-const char *const s1 = "omega\n"; static const char sa1[] = "omega\n";
-const char *const s2 = "bet_x"; static const char sa2[] = "bet_x";
-const char *const s3 = "gamma"; static const char sa3[] = "gamma";
-const char *const s4 = "alphabet_x"; static const char sa4[] = "alphabet_x";
-const char *const s5 = "ta\n"; static const char sa5[] = "ta\n";
-const char *const s6 = "ta\n"; static const char sa6[] = "ta\n";
+const char *const s0 = "alphabet"; static const char sa0[] = "alphabet";
+const char *const s1 = "\n"; static const char sa1[] = "\n";
+const char *const s2 = ""; static const char sa2[] = "";
+const char *const s3 = "omega_x"; static const char sa3[] = "omega_x";
+const char *const s4 = "gammadelta"; static const char sa4[] = "gammadelta";
+const char *const s5 = "gammadelta\n"; static const char sa5[] = "gammadelta\n";
+const char *const s6 = "mega"; static const char sa6[] = "mega";
 const char *const *const strtab[] = {&s0, &s1, &s2, &s3, &s4, &s5, &s6};
-int arr0[3] = {463, 90, 528}; int *parr0 = &arr0[0]; const int carr0[3] = {463, 90, 528}; const int *const pc0 = &carr0[0];
-int arr1[4] = {352, 96, 122, 164}; int *parr1 = &arr1[3]; const int carr1[4] = {352, 96, 122, 164}; const int *const pc1 = &carr1[2];
-int arr2[5] = {68, 446, 953, 820, 282}; int *parr2 = &arr2[1]; const int carr2[5] = {68, 446, 953, 820, 282}; const int *const pc2 = &carr2[4];
-int arr3[5] = {255, 0, 851, 849, 540}; int *parr3 = &arr3[2]; const int carr3[5] = {255, 0, 851, 849, 540}; const int *const pc3 = &carr3[4];
-int arr4[3] = {806, 672, 979}; int *parr4 = &arr4[1]; const int carr4[3] = {806, 672, 979}; const int *const pc4 = &carr4[2];
-__thread int tl0 = 15; static __thread int stl0; __thread char tbuf0[1];
-__thread int tl1 = 15; static __thread int stl1; __thread char tbuf1[1];
-__thread int tl2 = 29; static __thread int stl2; __thread char tbuf2[1];
+int arr0[7] = {658, 183, 51, 137, 897, 547, 496}; int *parr0 = &arr0[6]; const int carr0[7] = {658, 183, 51, 137, 897, 547, 496}; const int *const pc0 = &carr0[1];
+int arr1[2] = {994, 586}; int *parr1 = &arr1[1]; const int carr1[2] = {994, 586}; const int *const pc1 = &carr1[0];
+int arr2[8] = {635, 397, 146, 747, 352, 386, 106, 890}; int *parr2 = &arr2[6]; const int carr2[8] = {635, 397, 146, 747, 352, 386, 106, 890}; const int *const pc2 = &carr2[3];
+int arr3[3] = {530, 116, 723}; int *parr3 = &arr3[0]; const int carr3[3] = {530, 116, 723}; const int *const pc3 = &carr3[2];
+int arr4[2] = {974, 21}; int *parr4 = &arr4[0]; const int carr4[2] = {974, 21}; const int *const pc4 = &carr4[0];
+__thread int tl0 = 22; static __thread int stl0; __thread char tbuf0[17];
 static int f0(int x){ return x + 1; } static int f1(int x){ return x * 3; } int f2(int x){ return x - 5; }
 int (*const ftab[])(int) = { f0, f1, f2 }; int (*volatile fp)(int) = f2;
 static int ifimpl(int x){ return x ^ 0x55; } static void *ifres(void){ return (void*)ifimpl; } int ifn(int) __attribute__((ifunc("ifres")));
@@ -31,10 +29,10 @@ extern __thread int gd_a; extern __thread long gd_b[]; extern int tlsd_get(void)
 extern __thread char tls_fill[];
 extern int tlsl_get(void); extern void tlsl_bump(int); extern long tlsl_sum(void); extern long tlsl_gap(void); static unsigned long h2; static void mix2(unsigned long v){ h2 = (h2 ^ v) * 1099511628211UL + 11; }
 int main(void){
-    mix(tlsd_get()); mix(tlsd_sum()); tlsd_bump(83); mix(tlsd_get()); mix(tlsd_sum()); mix(gd_a); gd_a += 4; mix(tlsd_get());
-    mix(tlsd_addr() == &gd_a); mix(tlsd_tl0_addr() == &tl0); mix(tlsd_gap()); mix(tlsd_align()); gd_b[0] = 65; tlsd_bump(3); mix(tlsd_sum());
+    mix(tlsd_get()); mix(tlsd_sum()); tlsd_bump(44); mix(tlsd_get()); mix(tlsd_sum()); mix(gd_a); gd_a += 4; mix(tlsd_get());
+    mix(tlsd_addr() == &gd_a); mix(tlsd_tl0_addr() == &tl0); mix(tlsd_gap()); mix(tlsd_align()); gd_b[0] = 39; tlsd_bump(3); mix(tlsd_sum());
     tls_fill[0] += 1; mix(tls_fill[0]);
-    mix2(tlsl_get()); mix2(tlsl_sum()); tlsl_bump(64); mix2(tlsl_get()); mix2(tlsl_sum()); mix2(tlsl_gap()); tlsl_bump(3); mix2(tlsl_sum());
+    mix2(tlsl_get()); mix2(tlsl_sum()); tlsl_bump(37); mix2(tlsl_get()); mix2(tlsl_sum()); mix2(tlsl_gap()); tlsl_bump(3); mix2(tlsl_sum());
     for (unsigned i = 0; i < 7; i++) mixs(*strtab[i]);
     mixs(sa0); mix(strcmp(s0, sa0) == 0);
     mixs(sa1); mix(strcmp(s1, sa1) == 0);
@@ -49,8 +47,6 @@ int main(void){
     mix(*parr3); mix(*pc3); mix(parr3 - arr3); mix(pc3 - carr3); arr3[0] += 3; mix(arr3[0]);
     mix(*parr4); mix(*pc4); mix(parr4 - arr4); mix(pc4 - carr4); arr4[0] += 3; mix(arr4[0]);
     mix(tl0); stl0 += tl0 + 2; mix(stl0); tbuf0[0] = 9; mix(tbuf0[0]); mix((uintptr_t)&tl0 % __alignof__(int));
-    mix(tl1); stl1 += tl1 + 2; mix(stl1); tbuf1[0] = 9; mix(tbuf1[0]); mix((uintptr_t)&tl1 % __alignof__(int));
-    mix(tl2); stl2 += tl2 + 2; mix(stl2); tbuf2[0] = 9; mix(tbuf2[0]); mix((uintptr_t)&tl2 % __alignof__(int));
     for (int i = 0; i < 3; i++) mix(ftab[i](i + 10)); mix(fp(100)); mix(fp == f2);
     mix(ifn(7)); mix(ifp(9)); mix(ifp == ifn);
     mix(ctor_ran); mix(&undefined_weak_sym == 0); mix(weak_fn == 0);
